@@ -113,7 +113,6 @@ func newScopeRegistryWithShardCount(
 }
 
 func (r *scopeRegistry) Report(reporter StatsReporter) {
-	defer r.purgeIfRootClosed()
 	verifhook.Yield("registry.pass.begin")
 	r.reportInternalMetrics()
 
@@ -141,7 +140,6 @@ func (r *scopeRegistry) Report(reporter StatsReporter) {
 }
 
 func (r *scopeRegistry) CachedReport() {
-	defer r.purgeIfRootClosed()
 	verifhook.Yield("registry.pass.begin")
 	r.reportInternalMetrics()
 
@@ -308,12 +306,12 @@ func (r *scopeRegistry) lockedLookup(subscopeBucket *scopeBucket, key string) (*
 	return ss, ok
 }
 
-func (r *scopeRegistry) purgeIfRootClosed() {
+// purge closes, clears and unregisters every scope. It is called by the
+// root's Close after its final report (a pass of the report loop that is
+// still running when Close is called must not drop what that final report
+// has yet to deliver).
+func (r *scopeRegistry) purge() {
 	verifhook.Yield("registry.purge-check")
-	if !r.root.closed.Load() {
-		return
-	}
-
 	for _, subscopeBucket := range r.subscopes {
 		subscopeBucket.mu.Lock()
 		for k, s := range subscopeBucket.s {
